@@ -15,7 +15,7 @@ pub fn def() -> PropDef {
 	PropDef {
 		id: "C18",
 		level: "exploration",
-		rule: "generated scripts over 2-4 actors - handles inside the harness process and child processes (`pdbv lock-child`) - with operations open / drop / SIGKILL of a child holder / write-by-holder / drop of a holder with 150 queued commits while two threads keep trying to open (a second handle obtained before the drop returned must see a directory that no longer changes), on one directory; plus races: all actors (threads and processes) released by a barrier open simultaneously a directory that needs recovery (crash image with pending logs). Oracle (model holder: Option<actor>): an open succeeds iff nobody holds the directory; a refused open returns the lock error and leaves the directory snapshot (names, lengths, content hashes, lock file ignored) unchanged; after drop or SIGKILL of the holder the next open succeeds and observes every write made by earlier holders; in a race exactly one actor succeeds. Non-trivial = an open attempted while another actor's handle is live (or still recovering); distinct = distinct case fingerprints",
+		rule: "generated scripts over 2-4 actors - handles inside the harness process and child processes (`pdbv lock-child`) - with operations open (each actor with its own opening call: open_or_create / open / open_read_only) / drop / SIGKILL of a child holder / write-by-holder / drop of a holder with 150 queued commits while two threads keep trying to open (a second handle obtained before the drop returned must see a directory that no longer changes), on one directory; plus races: all actors (threads and processes) released by a barrier open simultaneously a directory that needs recovery (crash image with pending logs). Oracle (model holder: Option<actor>): an open succeeds iff nobody holds the directory; a refused open returns the lock error and leaves the directory snapshot (names, lengths, content hashes, lock file ignored) unchanged; after drop or SIGKILL of the holder the next open succeeds and observes every write made by earlier holders; in a race exactly one actor succeeds. Non-trivial = an open attempted while another actor's handle is live (or still recovering); distinct = distinct case fingerprints",
 		assumptions: &["holders run without background threads so that the directory is quiescent while a refused open is compared against the snapshot", "advisory flock semantics of the host kernel (tmpfs / local fs)"],
 		run,
 		replay,
@@ -51,15 +51,27 @@ pub struct LockCase {
 	/// finish with a simultaneous open by all actors
 	pub race: bool,
 	pub with_pending_logs: bool,
+	/// per actor: how it opens - 0 `open_or_create`, 1 `open`, 2 `open_read_only`
+	#[serde(default)]
+	pub modes: Vec<u8>,
 }
 
-pub fn child_main(dir: &str) -> i32 {
+fn open_mode(opts: &parity_db::Options, mode: u8) -> parity_db::Result<Db> {
+	match mode {
+		1 => Db::open(opts),
+		2 => Db::open_read_only(opts),
+		_ => Db::open_or_create(opts),
+	}
+}
+
+pub fn child_main(dir: &str, mode: &str) -> i32 {
+	let mode: u8 = mode.parse().unwrap_or(0);
 	let cfg = DbCfg::new(vec![ColCfg::hash(), ColCfg::multi()]);
 	let stdin = std::io::stdin();
 	let mut line = String::new();
 	// wait for "go"
 	let _ = stdin.lock().read_line(&mut line);
-	let r = Db::open_or_create(&cfg.options(Path::new(dir), false));
+	let r = open_mode(&cfg.options(Path::new(dir), false), mode);
 	match &r {
 		Ok(_) => println!("OK"),
 		Err(parity_db::Error::Locked(_)) => println!("LOCKED"),
@@ -80,9 +92,9 @@ struct ChildActor {
 	out: BufReader<std::process::ChildStdout>,
 }
 
-fn spawn_child(dir: &Path) -> Res<ChildActor> {
+fn spawn_child(dir: &Path, mode: u8) -> Res<ChildActor> {
 	let exe = std::env::current_exe().map_err(|e| Failure::new("harness-io", e.to_string()))?;
-	let mut child = Command::new(exe).args(["lock-child", dir.to_str().unwrap()]).stdin(Stdio::piped()).stdout(Stdio::piped()).stderr(Stdio::null()).spawn().map_err(|e| Failure::new("harness-io", e.to_string()))?;
+	let mut child = Command::new(exe).args(["lock-child", dir.to_str().unwrap(), &mode.to_string()]).stdin(Stdio::piped()).stdout(Stdio::piped()).stderr(Stdio::null()).spawn().map_err(|e| Failure::new("harness-io", e.to_string()))?;
 	let out = BufReader::new(child.stdout.take().unwrap());
 	Ok(ChildActor { child, out })
 }
@@ -143,6 +155,10 @@ pub fn run_case(case: &LockCase, dir: &Path) -> CaseResult {
 		}
 	}
 	let n = case.actors.len();
+	let mode_of = |a: usize| case.modes.get(a).cloned().unwrap_or(0);
+	if case.modes.iter().any(|m| *m == 2) {
+		out.label("read-only-actors");
+	}
 	let mut held: Vec<Option<Held>> = (0..n).map(|_| None).collect();
 	let mut holder: Option<usize> = None;
 	// client objects that outlive the handle they came from
@@ -167,7 +183,7 @@ pub fn run_case(case: &LockCase, dir: &Path) -> CaseResult {
 				let contested = holder.is_some();
 				let before = if contested { Some(dir_snapshot(&db_dir)) } else { None };
 				let (ok, locked, h) = if case.actors[a] {
-					let mut c = spawn_child(&db_dir)?;
+					let mut c = spawn_child(&db_dir, mode_of(a))?;
 					child_go(&mut c);
 					let r = child_result(&mut c);
 					match r.as_str() {
@@ -182,7 +198,7 @@ pub fn run_case(case: &LockCase, dir: &Path) -> CaseResult {
 						},
 					}
 				} else {
-					match Db::open_or_create(&cfg.options(&db_dir, false)) {
+					match open_mode(&cfg.options(&db_dir, false), mode_of(a)) {
 						Ok(db) => (true, false, Some(Held::Local(db))),
 						Err(parity_db::Error::Locked(_)) => (false, true, None),
 						Err(e) => fail!("open-failed-unexpectedly", "open returned {e}"),
@@ -190,6 +206,9 @@ pub fn run_case(case: &LockCase, dir: &Path) -> CaseResult {
 				};
 				if contested {
 					out.label("open-while-held");
+					if mode_of(a) == 2 && holder.map(|h| mode_of(h)) == Some(2) {
+						out.label("read-only-open-while-read-only-held");
+					}
 					if ok {
 						fail!("second-handle-opened", "actor {a} opened the directory while actor {:?} holds it", holder)
 					}
@@ -241,7 +260,7 @@ pub fn run_case(case: &LockCase, dir: &Path) -> CaseResult {
 			},
 			LockOp::DropRacing(a) => {
 				let a = *a as usize % n;
-				if holder != Some(a) {
+				if holder != Some(a) || mode_of(a) == 2 {
 					continue
 				}
 				let db = match held[a].take() {
@@ -322,7 +341,7 @@ pub fn run_case(case: &LockCase, dir: &Path) -> CaseResult {
 				}
 			},
 			LockOp::Write(k) => {
-				if let Some(h) = holder {
+				if let Some(h) = holder.filter(|h| mode_of(*h) != 2) {
 					if let Some(Held::Local(db)) = &held[h] {
 						let k = 10 + *k % 40;
 						db.commit(vec![(0u8, cfg.cols[0].key(k), Some(vec![7; 30]))]).map_err(|e| Failure::new("commit-failed", e.to_string()))?;
@@ -344,19 +363,20 @@ pub fn run_case(case: &LockCase, dir: &Path) -> CaseResult {
 		// everyone opens at once
 		let barrier = std::sync::Arc::new(std::sync::Barrier::new(case.actors.iter().filter(|c| !**c).count().max(1)));
 		let mut children: Vec<ChildActor> = Vec::new();
-		for is_child in &case.actors {
+		for (a, is_child) in case.actors.iter().enumerate() {
 			if *is_child {
-				children.push(spawn_child(&db_dir)?);
+				children.push(spawn_child(&db_dir, mode_of(a))?);
 			}
 		}
 		let mut threads = Vec::new();
-		for is_child in &case.actors {
+		for (a, is_child) in case.actors.iter().enumerate() {
 			if !*is_child {
 				let b = barrier.clone();
 				let opts = cfg.options(&db_dir, false);
+				let mode = mode_of(a);
 				threads.push(std::thread::spawn(move || {
 					b.wait();
-					match Db::open_or_create(&opts) {
+					match open_mode(&opts, mode) {
 						Ok(db) => Ok(Some(db)),
 						Err(parity_db::Error::Locked(_)) => Ok(None),
 						Err(e) => Err(e.to_string()),
@@ -407,7 +427,14 @@ pub fn run_case(case: &LockCase, dir: &Path) -> CaseResult {
 }
 
 fn lock_case() -> impl Strategy<Value = LockCase> {
-	(proptest::collection::vec(prop_oneof![3 => Just(false), 1 => Just(true)], 2..=4), any::<bool>(), prop_oneof![3 => Just(false), 1 => Just(true)]).prop_flat_map(|(actors, race, with_pending_logs)| {
+	(
+		proptest::collection::vec(prop_oneof![3 => Just(false), 1 => Just(true)], 2..=4),
+		any::<bool>(),
+		prop_oneof![3 => Just(false), 1 => Just(true)],
+		// opening modes: mostly all `open_or_create`; one case in three mixes in `open` and `open_read_only`
+		prop_oneof![2 => Just(vec![0u8; 4]), 1 => proptest::collection::vec(prop_oneof![2 => Just(0u8), 1 => Just(1u8), 3 => Just(2u8)], 4)],
+	)
+		.prop_flat_map(|(actors, race, with_pending_logs, modes)| {
 		let op = prop_oneof![
 			5 => (0u8..4).prop_map(LockOp::Open),
 			3 => (0u8..4).prop_map(LockOp::Drop),
@@ -416,7 +443,7 @@ fn lock_case() -> impl Strategy<Value = LockCase> {
 			1 => (0u8..4).prop_map(LockOp::DropRacing),
 			1 => (0u8..4).prop_map(LockOp::KeepReader),
 		];
-		proptest::collection::vec(op, 2..14).prop_map(move |ops| LockCase { actors: actors.clone(), ops, race, with_pending_logs })
+		proptest::collection::vec(op, 2..14).prop_map(move |ops| LockCase { actors: actors.clone(), ops, race, with_pending_logs, modes: modes[..actors.len()].to_vec() })
 	})
 }
 
